@@ -5,17 +5,60 @@ import (
 	"fmt"
 	"math/rand"
 	"os"
+	"sync"
 )
 
-type ctx struct {
-	prop   string
-	tier   string
-	seed   int64
-	out    string
-	rng    *rand.Rand
+// worker: one evaluation lane with its own model coprocess; jobs run on workers in parallel
+type worker struct {
+	*ctx
 	runner *Runner
-	res    *Result
-	thorough bool
+	seq    int
+}
+
+type job func(w *worker)
+
+func (c *ctx) runJobs(jobs []job) {
+	nw := 14
+	if len(jobs) < nw {
+		nw = len(jobs)
+	}
+	if nw == 0 {
+		return
+	}
+	var wg sync.WaitGroup
+	next := make(chan int, len(jobs))
+	for i := range jobs {
+		next <- i
+	}
+	close(next)
+	for k := 0; k < nw; k++ {
+		wg.Add(1)
+		go func() {
+			defer wg.Done()
+			w := &worker{ctx: c}
+			if c.runnerPath != "" {
+				w.runner = startRunner(c.runnerPath)
+				defer w.runner.Close()
+			}
+			for i := range next {
+				w.seq = i
+				jobs[i](w)
+			}
+		}()
+	}
+	wg.Wait()
+}
+
+type ctx struct {
+	runnerPath string
+	prop       string
+	tier       string
+	seed       int64
+	out        string
+	rng        *rand.Rand
+	runner     *Runner
+	res        *Result
+	thorough   bool
 }
 
 var commands = map[string]func(*ctx){}
@@ -43,6 +86,7 @@ func main() {
 	}
 	c := &ctx{prop: name, tier: *tier, seed: *seed, out: *out, rng: rand.New(rand.NewSource(*seed)),
 		res: newResult(name, *tier, *seed), thorough: *tier == "thorough"}
+	c.runnerPath = *runnerPath
 	if *runnerPath != "" {
 		c.runner = startRunner(*runnerPath)
 		defer c.runner.Close()
